@@ -371,7 +371,7 @@ def r09_c(ctx):
     e = rules_conserve.engine(ctx)
     rr = RuleResult('R09.c', 'a whitespace token read before an argument position is rolled back when no argument '
                     'follows, and is dropped only when an argument is attached', floor=20)
-    hits = [f for f in e.findings.values() if f.kind in ('spacer-dropped', 'unmatched-rollback')]
+    hits = [f for f in e.findings.values() if f.kind in ('spacer-dropped', 'unmatched-rollback', 'rollback-of-stored')]
     n = e.discharged.get('rolledback', 0) + e.discharged.get('licensed-spacer', 0)
     rr.instances = n + len(hits)
     rr.discharged = n
@@ -380,3 +380,93 @@ def r09_c(ctx):
     for f in hits:
         rr.fail(rules_conserve._finding('R09.c', f))
     return rr
+
+
+def r02_c(ctx):
+    """remaining-argument counts returned by the argument readers are threaded on, not dropped"""
+    repo = ctx.repo
+    mod = repo.modules['reader']
+    cg = callgraph.graph(ctx)
+    rr = RuleResult('R02.c', 'a reader that returns its decremented count parameter has that result threaded into every '
+                    'later use of the count: the remaining number of arguments is never reset to the full signature',
+                    floor=2)
+    n = 0
+    for fd in mod.functions.values():
+        ps = fd.params()
+        dec = {x.target.id for x in ast.walk(fd.node) if isinstance(x, ast.AugAssign) and isinstance(x.target, ast.Name)
+               and x.target.id in ps}
+        ret = {x.value.id for x in ast.walk(fd.node) if isinstance(x, ast.Return) and isinstance(x.value, ast.Name)}
+        counted = sorted(dec & ret)
+        if not counted:
+            continue
+        for p in counted:
+            idx = ps.index(p)
+            for caller, call in cg.call_sites_of(fd):
+                arg = call.args[idx] if idx < len(call.args) else next((k.value for k in call.keywords if k.arg == p), None)
+                if not isinstance(arg, ast.Name):
+                    continue
+                n += 1
+                stmt = call
+                while stmt is not None and not isinstance(stmt, ast.stmt):
+                    stmt = getattr(stmt, '_parent', None)
+                rebinds = isinstance(stmt, ast.Assign) and stmt.value is call and any(
+                    isinstance(t, ast.Name) and t.id == arg.id for t in stmt.targets)
+                # is the count variable read again after this statement?
+                later = [x for x in ast.walk(caller.node) if isinstance(x, ast.Name) and x.id == arg.id
+                         and isinstance(x.ctx, ast.Load) and x.lineno > stmt.end_lineno]
+                ok = rebinds or not later
+                rr.ob(ok, {'call': '%s:%d %s' % (caller.qual, call.lineno, norm(call)[:50]), 'count': arg.id,
+                           'result_rebinds_count': rebinds, 'count_read_later': bool(later)})
+                if not ok:
+                    rr.fail(Finding('R02.c', 'reader', caller.qual, stmt, 'the remaining count returned by %s is dropped '
+                                    'while %s is used again later: a command with a fixed signature restarts from its '
+                                    'full argument count and absorbs a following group' % (fd.qual, arg.id), line=call.lineno))
+    if n == 0:
+        raise AnalysisError('no counted argument reader found')
+    return rr
+
+
+def r09_g(ctx):
+    """whether a group is attached depends only on the kind of the next token (and the remaining count)"""
+    repo = ctx.repo
+    rr = RuleResult('R09.g', 'in the argument loops the test that attaches a group reads nothing but the kind of the next '
+                    'token and the remaining count: no further look-ahead, no other state', floor=2)
+    for fd, loop in _arg_loops(repo):
+        cur = fd.params()[0]
+        # the calls that attach a group: args.append(read_arg(src, next(src), ...))
+        attaches = [n for n in ast.walk(loop) if isinstance(n, ast.Call) and isinstance(n.func, ast.Name) and n.func.id == 'read_arg']
+        if not attaches:
+            raise AnalysisError('%s: no group is attached in the loop' % fd.qual)
+        for call in attaches:
+            guards = rules_reader._guards_dominating(fd, call)
+            guards = [(t, tr) for t, tr in guards if any(isinstance(x, ast.Name) and x.id == cur for x in ast.walk(t))]
+            bad = []
+            for t, tr in guards:
+                for a in _bool_atoms(t):
+                    txt = norm(a)
+                    ok = txt == '%s.hasNext()' % cur or (isinstance(a, ast.Compare) and norm(a.left) == '%s.peek().category' % cur
+                                                         and isinstance(a.ops[0], (ast.Eq, ast.NotEq, ast.In, ast.NotIn)))
+                    ok = ok or (isinstance(a, ast.Compare) and isinstance(a.left, ast.Name) and a.left.id in fd.params()
+                                and isinstance(a.comparators[0], ast.Constant))
+                    if not ok:
+                        bad.append(a)
+            rr.ob(not bad and bool(guards), {'loop': fd.qual, 'attach_test': [norm(t)[:70] for t, tr in guards]})
+            for a in bad:
+                rr.fail(Finding('R09.g', 'reader', fd.qual, a, 'whether a group is attached as an argument also depends on '
+                                '%s: groups that follow the command (after at most one line break) can be left in the text '
+                                'or foreign ones attached' % norm(a)[:60], line=a.lineno))
+            if not guards:
+                rr.fail(Finding('R09.g', 'reader', fd.qual, call, 'a group is attached without testing the kind of the next '
+                                'token', line=call.lineno))
+    return rr
+
+
+def _bool_atoms(t):
+    if isinstance(t, ast.BoolOp):
+        out = []
+        for v in t.values:
+            out += _bool_atoms(v)
+        return out
+    if isinstance(t, ast.UnaryOp) and isinstance(t.op, ast.Not):
+        return _bool_atoms(t.operand)
+    return [t]
